@@ -60,6 +60,28 @@ def norm_ops(base_len, ops):
     return out or [("i", b"x")]
 
 
+_ZEXACT = {}
+
+
+def zexact(seed, k, level):
+    import zlib
+
+    key = (seed, k, level)
+    if key not in _ZEXACT:
+        want = k * 65536
+        src = pseudo(seed, want)
+        found = None
+        for L in range(want - 11, want - 400, -1):  # overhead of stored blocks: a few bytes per 16-64 KiB
+            n = len(zlib.compress(src[:L], level))
+            if n == want:
+                found = L
+                break
+            if n < want - 8:
+                break
+        _ZEXACT[key] = src[:found] if found is not None else src[: want - 11]
+    return _ZEXACT[key]
+
+
 def materialise(specs, hash_len=20):
     """-> list of Obj, one per spec (duplicates by id are possible: the caller dedups)."""
     objs = []
@@ -69,6 +91,10 @@ def materialise(specs, hash_len=20):
             t, data = 3, bytes(s[1])
         elif kind == "P":
             t, data = 3, pseudo(s[1], s[2])
+        elif kind == "Z":
+            # incompressible content cut so that its deflate stream at the given level is exactly k * 64 KiB long (the
+            # slice size of the mmap inflater): ("Z", seed, k, level)
+            t, data = 3, zexact(s[1], s[2], s[3])
         elif kind == "R":
             pat = bytes(s[1]) or b"\0"
             t, data = 3, (pat * (s[2] // len(pat) + 1))[: s[2]]
@@ -184,6 +210,14 @@ def strategies():
         for _ in range(nfam):
             if budget <= 0:
                 break
+            if profile in ("plain", "hand", "git") and budget >= 8 and draw(st.integers(0, 3)) == 0:
+                # one object per common compression level whose deflate stream is exactly 64 KiB (or 128 KiB) long
+                k = draw(st.sampled_from([1, 1, 2]))
+                zs = draw(st.integers(0, 3))
+                for lvl in (-1, 0, 1, 9):
+                    out.append(("Z", zs, k, lvl))
+                    blobs.append(len(out) - 1)
+                    budget -= 1
             n = draw(st.sampled_from(sizes + (HUGE_SIZES if huge else [])))
             form = draw(st.sampled_from(["P", "P", "R", "B"]))
             if form == "P" or (form == "B" and n > 200):
